@@ -5,9 +5,11 @@ import (
 	"encoding/json"
 	"fmt"
 	"os"
+	"runtime"
 	"runtime/debug"
 	"strings"
 	"testing"
+	"time"
 )
 
 // Request is one line on the worker's stdin.
@@ -31,6 +33,26 @@ type Response struct {
 	Error  string  `json:"error,omitempty"` // machinery trouble (harness panic): never a violation
 }
 
+// MemoryLimit is the live-heap size at which a worker gives up on its run: the sandbox has no memory
+// limit of its own, and a run that allocates without bound (a loop that does not end, a string that
+// doubles per iteration) would otherwise take gigabytes before the per-run watchdog fires. The driver
+// treats the exit like a hang.
+const MemoryLimit = 3 << 30
+
+const MemoryLimitMarker = "VERIF-MEMORY-LIMIT"
+
+func memoryWatchdog() {
+	var ms runtime.MemStats
+	for {
+		time.Sleep(200 * time.Millisecond)
+		runtime.ReadMemStats(&ms)
+		if ms.HeapAlloc > MemoryLimit {
+			fmt.Fprintf(os.Stderr, "\n%s: live heap %d MiB exceeds %d MiB during one run\n", MemoryLimitMarker, ms.HeapAlloc>>20, MemoryLimit>>20)
+			os.Exit(67)
+		}
+	}
+}
+
 // Serve is the worker main loop: read requests, run engines, write results.
 func Serve(t *testing.T, engines map[string]Engine) {
 	out := os.NewFile(3, "results")
@@ -45,6 +67,7 @@ func Serve(t *testing.T, engines map[string]Engine) {
 	w := bufio.NewWriter(out)
 	enc := json.NewEncoder(w)
 	in := bufio.NewReaderSize(os.Stdin, 1<<20)
+	go memoryWatchdog()
 	for {
 		line, err := in.ReadBytes('\n')
 		if len(line) > 0 {
